@@ -54,6 +54,33 @@ Theorem C15_stk_gs_join : forall s i k v1 v2,
 Proof. exact stk_gs_join. Qed.
 Print Assumptions C15_stk_gs_join.
 
+(* repeated tags ANYWHERE in the file (adjacent or separated by other GF tags, sequence blocks, GC/GR lines, comments):
+   a GF tag k whose fragments in file order are v :: vs reads as the fragments joined by single spaces; likewise a GS tag
+   of one sequence; stated on the reader's fold over arbitrary item lists and on the text of a file *)
+Theorem C15_gf_all_frags : forall k its s,
+  lookup k (s_gf (fold_left step its s)) = join_all (lookup k (s_gf s)) (gf_frags k its).
+Proof. exact gf_all_frags. Qed.
+Print Assumptions C15_gf_all_frags.
+
+Theorem C15_gs_all_frags : forall i k its s,
+  lookup k (getd i (s_gs (fold_left step its s))) = join_all (lookup k (getd i (s_gs s))) (gs_frags i k its).
+Proof. exact gs_all_frags. Qed.
+Print Assumptions C15_gs_all_frags.
+
+Theorem C15_read_text_gf_join : forall t ls e rest k v vs,
+  py_lines t = ls ++ e :: rest -> forallb good (map parse_line ls) = true -> parse_line e = IEnd ->
+  gf_frags k (map parse_line ls) = v :: vs ->
+  exists a, fst (read_text t) = Some a /\ lookup k (a_gf a) = Some (spaced v vs).
+Proof. exact read_text_gf_join. Qed.
+Print Assumptions C15_read_text_gf_join.
+
+Theorem C15_read_text_gs_join : forall t ls e rest i k v vs r,
+  py_lines t = ls ++ e :: rest -> forallb good (map parse_line ls) = true -> parse_line e = IEnd ->
+  gs_frags i k (map parse_line ls) = v :: vs ->
+  exists a, fst (read_text t) = Some a /\ (In r (a_rows a) -> r_id r = i -> lookup k (r_gs r) = Some (spaced v vs)).
+Proof. exact read_text_gs_join. Qed.
+Print Assumptions C15_read_text_gs_join.
+
 (* every annotation line the writer emits is classified back to its item (the text layer of the round trip) *)
 Theorem C15_lines_items : forall a, wf_aln a = true -> map (fun l => parse_line (l ++ [NL])) (content_lines a) = items_of a.
 Proof. exact (fun a H => lines_items a (wf_aln_ok a H)). Qed.
@@ -101,3 +128,10 @@ Example C15_witness_rows :
   /\ row2fts (bs "..a.."%bs) = [mkft 0 5 3 (bs "a"%bs)]
   /\ wf_fts [mkft 2 7 0 (bs "a"%bs); mkft 6 11 0 (bs "b"%bs)] = true.
 Proof. exact (conj eq_refl (conj eq_refl (conj eq_refl (conj eq_refl eq_refl)))). Qed.
+
+(* non-adjacent repeats (Rfam/Pfam reference blocks): RN [1], RM 123, RN [2] -> RN = "[1] [2]" *)
+Example C15_witness_nonadjacent :
+  option_map (fun a => map (fun kv => (Bstr (fst kv), Bstr (snd kv))) (a_gf a))
+    (fst (read_text (unhex (bs "233d474620524e205b315d0a233d474620524d203132330a233d474620524e205b325d0a6120414347550a2f2f0a"%bs))))
+  = Some [("RN"%bs, "[1] [2]"%bs); ("RM"%bs, "123"%bs)].
+Proof. exact eq_refl. Qed.
